@@ -64,6 +64,7 @@ def check(tier):
         cases.append((p, ca, autos))
     bad, out = R.run_case_file("cases_C10", cases)
     rep.cov["evaluations"] = len(cases)
+    rep.cov["undecided_slow_patterns"] = [cases[i][0] for i in R.LAST.get("slow", [])][:10]
     rep.cov["programs"] = sum(len(c[2]) for c in cases)
     rep.cov["distinct_nontrivial"] = sum(1 for p, code, a in cases if code == 0 and any(ch in p for ch in "?*{|"))
     rep.cov["rule"] = ("patterns = corpus + shapes with nullable operands / empty-matching patterns / duplicated sub-expressions + every construct "
